@@ -52,6 +52,10 @@ def delete_typestate(ctx, c):
                     n_calls += 1
                     arg = peel(n["args"][0])
                     state, why = "Unsorted", "argument is not a tracked local"
+                    ab_, ams_ = chain(resolve(arg))
+                    if peel(ab_).get("k") == "local" and "BTreeSet" in (peel(ab_).get("ty") or "") and [m_[0] for m_ in ams_ if m_[0] not in ("copied", "cloned")] in (["into_iter", "collect"], ["iter", "collect"]):
+                        # an ordered set iterates in ascending order: sorted (and free of duplicates) by construction
+                        state, why = "Sorted", "collected from a BTreeSet"
                     if arg.get("k") == "local":
                         state, why = typestate(arg["id"], n, ix, defs)
                     ctx.inst("R20.1", "%s:delete_entries#%d" % (path.split("::")[-1], n_calls), state == "Sorted", n["sp"],
@@ -78,7 +82,8 @@ def forward_pass(g):
     if cl.get("k") != "closure":
         return False
     incs = [n for n in walk(cl["body"]) if n.get("k") == "assignop" and n["op"] in ("+=", "+") and peel(n["l"]).get("k") == "local" and peel(n["r"]).get("v") == 1]
-    if len(incs) != 1 or len(gx.regions[id(incs[0])]) != len(gx.regions[id(cl)]) + 1:
+    incs = [n for n in incs if len(gx.regions[id(n)]) == len(gx.regions[id(cl)]) + 1]      # the running index: incremented once per element, unconditionally
+    if len(incs) != 1:
         return False
     counter = peel(incs[0]["l"])["id"]
 
@@ -95,6 +100,27 @@ def forward_pass(g):
     def from_list(e):
         b_, ms_ = chain(norm_.value_source(gx, gdefs, e))
         return is_local(b_, p_list) and [m_[0] for m_ in ms_] == ["into_iter", "peekable"]
+    # the same pass with an explicit cursor: `list.get(cursor) == Some(&index)`, the cursor advanced exactly when the element is deleted
+    for n in walk(cl["body"]):
+        if n.get("k") == "binary" and n["op"] == "==":
+            for a_, b_ in ((n["l"], n["r"]), (n["r"], n["l"])):
+                ab, ams = chain(resolve(a_))
+                bb = peel(b_)
+                if [m_[0] for m_ in ams] in (["get"], ["get", "copied"], ["get", "cloned"]) and is_local(ab, p_list) and bb.get("k") == "ctor" and callee(bb).endswith("Option::Some") and is_index(bb["args"][0]):
+                    cur = peel(ams[0][1][0])
+                    if cur.get("k") != "local":
+                        continue
+                    cinit = simple_let_init(gdefs, cur["id"])
+                    adv = [x for x in walk(cl["body"]) if x.get("k") == "assignop" and x["op"] in ("+=", "+") and is_local(x["l"], cur["id"]) and peel(x["r"]).get("v") == 1]
+                    if cinit is None or peel(cinit).get("v") != 0 or len(adv) != 1:
+                        continue
+                    # advanced under the very test, and the element is kept iff the test fails
+                    conds = norm_.path_conditions(gx, adv[0], upto=cl)
+                    under = len(conds) == 1 and conds[0][1] and (resolve(conds[0][0]) is n or conds[0][0] is n)
+                    res = resolve(norm_.result_value(cl["body"]))
+                    keeps = res.get("k") == "unary" and res["op"] == "!" and (resolve(res["e"]) is n)
+                    if under and keeps:
+                        return True
     for n in walk(cl["body"]):
         if n.get("k") == "mcall" and n["name"] == "next_if_eq" and from_list(n["recv"]) and is_index(n["args"][0]):
             return True
@@ -571,8 +597,20 @@ def coalesce(ctx):
         for a in ors[0]["args"]:
             fl = None
             e = peel(norm_.value_source(ix, defs, a))
-            if e.get("k") == "field" and e["name"] == "guard":
-                src = norm_.value_source(ix, defs, e["e"])
+            src0 = None
+            if e.get("k") == "local":
+                # `let Entry { guard, value } = entries[i].clone();`: the binding is the guard field of that entry
+                d_ = defs.get(e["id"]) or defs.get(canon(e["id"]))
+                if d_ and d_[0] == "let" and "init" in d_[1]:
+                    pt_ = d_[1]["pat"]
+                    while pt_.get("k") in ("pref", "pderef"):
+                        pt_ = pt_["pat"]
+                    if pt_.get("k") == "pstruct":
+                        for fl_ in pt_["fields"]:
+                            if fl_["name"] == "guard" and any(canon(bi) == canon(e["id"]) for _, bi in pat_bindings(fl_["pat"])):
+                                src0 = d_[1]["init"]
+            if (e.get("k") == "field" and e["name"] == "guard") or src0 is not None:
+                src = norm_.value_source(ix, defs, e["e"]) if src0 is None else norm_.value_source(ix, defs, src0)
                 b_, ms_ = chain(src)
                 b_ = peel(b_)
                 if b_.get("k") == "index" and is_local(b_["e"], p_entries) and all(m_[0] in ("clone",) for m_ in ms_) and peel(b_["i"]).get("k") == "local":
@@ -592,7 +630,7 @@ def coalesce(ctx):
             later = canon(local_id(peel(peel(stores[0]["l"])["e"])["i"])) if ok and local_id(peel(peel(stores[0]["l"])["e"])["i"]) is not None else None
             ok = ok and later in idx
             earlier = [x for x in idx if x != later][0] if ok else None
-            dl = [n for n in ix.nodes if n.get("k") == "mcall" and n["name"] == "push" and len(n["args"]) == 1 and earlier is not None and is_local(n["args"][0], earlier)]
+            dl = [n for n in ix.nodes if n.get("k") == "mcall" and n["name"] in ("push", "insert") and len(n["args"]) == 1 and earlier is not None and is_local(n["args"][0], earlier)]
             ok = ok and len(dl) == 1 and ix.regions[id(dl[0])] == ix.regions[id(stores[0])]
             why += "; stored in the later entry, earlier entry scheduled for deletion" if ok else "; store/deletion bookkeeping does not match"
             ins = [n for n in ix.nodes if n.get("k") == "mcall" and n["name"] == "insert" and len(n["args"]) == 2 and "HashMap" in (n.get("path") or "") and later is not None and is_local(n["args"][1], later)]
